@@ -2,7 +2,7 @@
    Model: Resp/Handler.v (Command::try_from, the three commands, the per-connection loop) over
    Resp/Conn.v (read_frame over arbitrary socket reads) and a key-value map; C01 proves the storage
    engine to be that map. *)
-From BC Require Import Resp.Frame Resp.Conn Resp.Handler Resp.HandlerProofs Resp.Stream.
+From BC Require Import Resp.Frame Resp.Conn Resp.Handler Resp.HandlerProofs Resp.Prefix Resp.Stream Resp.Client Resp.ClientProofs.
 Open Scope Z_scope.
 
 (* 1. For any stream of well-formed requests, cut into socket reads in ANY way (whole, one byte at a
@@ -30,6 +30,35 @@ Theorem C06_value_bytes_exact : forall m k v, is_utf8 k = true ->
 Proof. intros m k v _. cbn [apply_cmd fst snd]. unfold kv_get, aset. cbn [aget]. rewrite beq_refl. reflexivity. Qed.
 Print Assumptions C06_value_bytes_exact.
 
+(* 3b. End to end with the crate's own client (src/net/client.rs; model Resp/Client.v): the calls of a
+       session (set / get / del with well-formed arguments), each answered by the handler, return call by
+       call what the map says — Ok(()) for set, the stored bytes or None for get, the count for del —
+       whatever the segmentation of the reply stream and for either build of the frame reader.
+       [kv_small]: every stored value has a length that fits the length field (true of the empty map and
+       kept by well-formed requests). *)
+Theorem C06_client_server : forall b rs segs m, kv_small m -> Forall (fun r => wf_req r = true) rs ->
+  concat segs = fst (spec_out m rs) ->
+  client_session rs (read_all (fixed b) segs []) = spec_results m rs.
+Proof. exact client_server. Qed.
+Print Assumptions C06_client_server.
+
+(* 3c. Read-your-writes through both ends and the wire: set then get on one connection returns exactly
+       the bytes that were set. *)
+Theorem C06_set_then_get : forall b m k v segs, kv_small m -> wf_req (RqSet k v) = true -> wf_req (RqGet k) = true ->
+  concat segs = fst (spec_out m [RqSet k v; RqGet k]) ->
+  client_session [RqSet k v; RqGet k] (read_all (fixed b) segs []) = [CUnit; CVal (Some v)].
+Proof. exact set_then_get. Qed.
+Print Assumptions C06_set_then_get.
+
+(* 3d. A reply stream that ends inside a reply: the calls answered so far return the map's answers, the
+       next one reports a reset (never a value). *)
+Theorem C06_client_truncated : forall b rs r segs m part e, kv_small m -> Forall (fun r => wf_req r = true) rs -> wf_req r = true ->
+  enc (snd (apply_cmd (snd (spec_out m rs)) (cmd_of_req r))) = Ok e -> sprefix part e -> part <> [] ->
+  concat segs = fst (spec_out m rs) ++ part ->
+  client_session (rs ++ [r]) (read_all (fixed b) segs []) = spec_results m rs ++ [CReset].
+Proof. exact client_truncated. Qed.
+Print Assumptions C06_client_truncated.
+
 (* 4. DEL counts keys as they are deleted in turn: a key named twice counts once. *)
 Example C06_del_counts_in_turn :
   let m := aset (aset [] [107]%N [1]%N) [97]%N [2]%N in
@@ -44,3 +73,10 @@ Example C06_example :
   = (fst (spec_out [] rs), snd (spec_out [] rs), TClosed) /\
   fst (spec_out [] rs) = [43; 79; 75; 13; 10; 36; 52; 13; 10; 13; 10; 0; 255; 13; 10; 58; 49; 13; 10; 36; 45; 49; 13; 10]%N.
 Proof. vm_compute. split; reflexivity. Qed.
+
+Example C06_client_example :
+  let rs := [RqSet [107]%N [13; 10; 0; 255]%N; RqGet [107]%N; RqDel [[107]; [107]]%N; RqGet [107]%N] in
+  kv_small [] /\ Forall (fun r => wf_req r = true) rs /\
+  client_session rs (read_all (fixed Release) [[43; 79; 75; 13; 10; 36; 52; 13]; [10; 13; 10; 0; 255; 13; 10; 58; 49; 13; 10; 36; 45; 49; 13; 10]]%N [])
+  = [CUnit; CVal (Some [13; 10; 0; 255]%N); CInt 1; CVal None].
+Proof. split; [exact kv_small_nil|]. split; [repeat constructor|]. vm_compute. reflexivity. Qed.
